@@ -97,6 +97,19 @@ v('C07', 'fire', KA, 'cho_solve((L, True), HP', 'cho_solve((L, False), HP')
 v('C07', 'fire', KA, 'S = HP @ H.T + R', 'S = HP @ H.T')
 v('C07 C19', 'fire', KA, 'K = cho_solve((L, True), HP, overwrite_b=True).T', 'K = cho_solve((L, True), P, overwrite_b=True).T')
 v('C07', 'silent', KA, 'U = np.eye(len(x)) - K.dot(H)', 'U = np.identity(len(x)) - K @ H')
+v('C14 C11', 'fire', 'inertial_sensor.py', 'self.scale_misal_modelled = bool(output_axes)', 'self.scale_misal_modelled = any(output_axes)', 'seeded C14 round 2: truthiness of index values instead of list length')
+v('C14', 'silent', 'inertial_sensor.py', 'self.scale_misal_modelled = bool(output_axes)', 'self.scale_misal_modelled = len(scale_misal_states) > 0', 'length test on the sibling list')
+v('C14', 'fire', 'inertial_sensor.py', 'self.scale_misal_modelled = bool(output_axes)', 'self.scale_misal_modelled = sum(input_axes) > 0', 'sum of indices as a non-emptiness test')
+_RPH_OLD = "    return Rotation.from_matrix(mat).as_euler('xyz', degrees=True)"
+_RPH_NEW = """    mat = np.asarray(mat)
+    roll = %s
+    pitch = -np.arcsin(mat[..., 2, 0])
+    heading = np.arctan2(mat[..., 1, 0], mat[..., 0, 0])
+    return np.rad2deg(np.stack((roll, pitch, heading), axis=-1))"""
+v('C05 C17', 'fire', 'transform.py', _RPH_OLD, _RPH_NEW % 'np.arctan(mat[..., 2, 1] / mat[..., 2, 2])', 'seeded C05 round 2: closed-form Euler extraction, roll through single-argument arctan')
+v('C05 C17 C03 C06 C18', 'silent', 'transform.py', _RPH_OLD, _RPH_NEW % 'np.arctan2(mat[..., 2, 1], mat[..., 2, 2])', 'correct closed-form Euler extraction')
+v('C05 C17', 'fire', 'transform.py', _RPH_OLD, _RPH_NEW % 'np.arctan2(mat[..., 2, 2], mat[..., 2, 1])', 'closed-form Euler extraction, arctan2 arguments swapped')
+v('C17', 'fire', 'transform.py', _RPH_OLD, "    return Rotation.from_matrix(mat).as_euler('XYZ', degrees=True)", 'intrinsic sequence in the defining inverse')
 v('C06 C19', 'fire', 'error_model.py',
   ["    def _transform_3d_2d(self, VN, VE):",
    "        result = np.zeros((3, 9))\n        result[:, self.DR] = np.eye(3)\n        if imu_to_antenna_b is not None:\n            mat_nb = transform.mat_from_rph(pva[RPH_COLS])\n            result[:, self.PHI]"],
